@@ -92,8 +92,17 @@ def generate(prng, tier, index):
         for _ in range(len(sc["phis"]) - 1):
             ed = []
             for _ in range(prng.choice((1, 1, 2, 3))):
-                kind = prng.choice(("add", "add", "remove", "add_node_edge"))
-                if kind == "remove" and cur:
+                kind = prng.choice(("add", "add", "remove", "add_node_edge", "swap", "swap"))
+                if kind == "swap" and len(cur) >= 2:
+                    # degree-preserving rewiring in place: (a,b),(c,d) -> (a,c),(b,d); every vertex keeps its degree
+                    for _try in range(8):
+                        (a, b), (c, d) = prng.sample(cur, 2)
+                        if len({repr(a), repr(b), repr(c), repr(d)}) == 4 and not any(
+                                {repr(x), repr(y)} in ({repr(a), repr(c)}, {repr(b), repr(d)}) for x, y in cur):
+                            cur.remove([a, b]); cur.remove([c, d]); cur.append([a, c]); cur.append([b, d])
+                            ed += [["remove", a, b], ["remove", c, d], ["add", a, c], ["add", b, d]]
+                            break
+                elif kind == "remove" and cur:
                     e = cur.pop(prng.randrange(len(cur)))
                     ed.append(["remove", e[0], e[1]])
                 elif kind == "add_node_edge":
